@@ -66,7 +66,7 @@ func RunCase(c *world.Case, o RunOpts) *world.Outcome {
 		}
 	}
 	if o.Timeout == 0 {
-		o.Timeout = 120 * time.Second
+		o.Timeout = 400 * time.Second
 	}
 	id := atomic.AddInt64(&caseSeq, 1)
 	dir := Scratch()
